@@ -2094,8 +2094,12 @@ class StridedInterval:
         if tok == self.bits:
             return self.copy()
 
-        # the interval can be represented in tok bits
-        if (self.lower_bound & mask) == self.lower_bound and (self.upper_bound & mask) == self.upper_bound:
+        # the interval can be represented in tok bits (not if it wraps around: then it passes through larger values)
+        if (
+            self.lower_bound <= self.upper_bound
+            and (self.lower_bound & mask) == self.lower_bound
+            and (self.upper_bound & mask) == self.upper_bound
+        ):
             return StridedInterval(
                 bits=tok,
                 stride=self.stride,
